@@ -193,6 +193,11 @@ func (fr *Frame) probeLoop(li *loopInfo, cur *State) (locals []*ssa.Alloc, keys 
 		}
 	}()
 	// which heaps were only written at objects allocated inside the loop body
+	li.writesSeen = map[string][]string{}
+	for k, ws := range r.writes {
+		li.writesSeen[k] = append([]string{}, ws...)
+	}
+	li.probeCtr0 = r.probeCtr0
 	li.freshOnly = map[string]bool{}
 	for k := range modK {
 		ws, seen := r.writes[k]
@@ -273,12 +278,23 @@ func (fr *Frame) enterLoop(li *loopInfo, cur *State) *State {
 		}
 	}
 	li.modLocals, li.modKeys = locals, keys
+	li.autoFramed = map[string]bool{}
+	li.accOwn = nil
+	li.accGet = nil
 	// automatic invariant for append accumulators that start nil or on an array allocated by this function:
 	// their backing array stays an allocation of this function (so in-place appends cannot touch the caller's arrays)
 	li.ownedAcc = nil
 	if r.entryState != nil {
 		wmE := r.heapGet(r.entryState, r.eng.heapKeyAlloc())
+		wmPre := r.heapGet(cur, r.eng.heapKeyAlloc())
+		type cand struct {
+			a      *ssa.Alloc
+			get    func(*State) (Term, bool)
+			origin string
+		}
+		var cands []cand
 		for _, a := range locals {
+			a := a
 			if _, ok := types.Unalias(deref(a.Type())).Underlying().(*types.Slice); !ok {
 				continue
 			}
@@ -286,21 +302,59 @@ func (fr *Frame) enterLoop(li *loopInfo, cur *State) *State {
 			if !ok {
 				continue
 			}
-			_, owned := r.sliceArr[pre.S]
-			if pre.S != "slice_nil" && !owned {
+			o, owned := r.sliceArr[pre.S]
+			if pre.S == "slice_nil" {
+				o, owned = "new_own", true
+			}
+			if owned {
+				cands = append(cands, cand{a, func(s *State) (Term, bool) { t, ok := s.locals[a]; return t, ok }, o})
+			}
+		}
+		// captured (heap-allocated) slice variables
+		for a, o := range r.cellOrigin {
+			a := a
+			if a.Parent() != fr.fn {
 				continue
 			}
-			if !onlyAppendedTo(a, li) {
+			ref, ok := fr.vals[a].(Term)
+			if !ok {
 				continue
 			}
-			li.ownedAcc = append(li.ownedAcc, a)
+			T := deref(a.Type())
+			if _, ok := types.Unalias(T).Underlying().(*types.Slice); !ok {
+				continue
+			}
+			key := r.eng.heapKeyObj(T)
+			cands = append(cands, cand{a, func(s *State) (Term, bool) { return sel(r.heapGet(s, key), ref), true }, o})
+		}
+		sort.Slice(cands, func(i, j int) bool { return cands[i].a.Pos() < cands[j].a.Pos() })
+		for _, c := range cands {
+			if !onlyAppendedTo(c.a, li) {
+				continue
+			}
+			pre, _ := c.get(cur)
+			origin := c.origin
+			li.ownedAcc = append(li.ownedAcc, c.a)
+			if li.accOrigin == nil {
+				li.accOrigin = map[*ssa.Alloc]string{}
+			}
+			li.accOrigin[c.a] = origin
+			li.accGet = append(li.accGet, c.get)
 			own := func(v Term) Term {
-				return or(eq(app("Int", "sl_cap", v), intLit(0)), app("Bool", ">", app("Int", "sl_arr", v), wmE))
+				arr := app("Int", "sl_arr", v)
+				inLoop := app("Bool", ">", arr, wmPre)
+				if strings.HasPrefix(origin, "new_") && origin != "new_own" {
+					inLoop = or(eq(arr, Term{origin, "Int"}), inLoop)
+				}
+				return or(eq(app("Int", "sl_cap", v), intLit(0)), and(app("Bool", ">", arr, wmE), inLoop))
 			}
+			li.accOwn = append(li.accOwn, own)
 			if r.probing == 0 {
-				r.oblige(cur, "loop-init", fmt.Sprintf("%s#loop%d:init:auto-owned:%s", name, li.ord, a.Comment), fr.safetyTags(), own(pre), "append accumulator starts on an array allocated by this function", true, li.header.Instrs[0].Pos())
+				r.oblige(cur, "loop-init", fmt.Sprintf("%s#loop%d:init:auto-owned:%s", name, li.ord, c.a.Comment), fr.safetyTags(), own(pre), "append accumulator starts on an array allocated by this function", true, li.header.Instrs[0].Pos())
 			}
-			r.assume(st, own(st.locals[a]))
+			if v, ok := c.get(st); ok {
+				r.assume(st, own(v))
+			}
 		}
 	}
 	// automatic loop frames
@@ -308,11 +362,21 @@ func (fr *Frame) enterLoop(li *loopInfo, cur *State) *State {
 		if frameKeySkipped(k) || !(strings.HasPrefix(k, "H|") || strings.HasPrefix(k, "A|") || strings.HasPrefix(k, "M")) {
 			continue
 		}
-		if li.freshOnly[k] {
-			// every write in the body targets an object allocated in the body: older objects are untouched
+		if li.freshOnly[k] || li.accOnlyKey(r, k) {
+			// every write in the body targets an object allocated in the body (or the array of an owned append
+			// accumulator): older objects are untouched
 			wmPre := r.heapGet(cur, r.eng.heapKeyAlloc())
 			H0, H1 := r.heapGet(cur, k), r.heapGet(st, k)
-			r.assume(st, Term{fmt.Sprintf("(forall ((fx Int)) (! (=> (<= fx %s) (= (select %s fx) (select %s fx))) :pattern ((select %s fx))))", wmPre.S, H1.S, H0.S, H1.S), "Bool"})
+			excl := ""
+			if !li.freshOnly[k] {
+				for _, a := range li.ownedAcc {
+					if o := li.accOrigin[a]; strings.HasPrefix(o, "new_") && o != "new_own" {
+						excl += fmt.Sprintf(" (not (= fx %s))", o)
+					}
+				}
+			}
+			r.assume(st, Term{fmt.Sprintf("(forall ((fx Int)) (! (=> (and (<= fx %s)%s) (= (select %s fx) (select %s fx))) :pattern ((select %s fx))))", wmPre.S, excl, H1.S, H0.S, H1.S), "Bool"})
+			li.autoFramed[k] = true
 			continue
 		}
 		if fr.top && r.contract != nil && r.entryEnv != nil {
@@ -364,12 +428,13 @@ func (fr *Frame) checkLoopStep(li *loopInfo, st *State) {
 	}
 	if r.entryState != nil {
 		wmE := r.heapGet(r.entryState, r.eng.heapKeyAlloc())
-		for _, a := range li.ownedAcc {
-			v, ok := st.locals[a]
+		_ = wmE
+		for i, a := range li.ownedAcc {
+			v, ok := li.accGet[i](st)
 			if !ok {
 				continue
 			}
-			g := or(eq(app("Int", "sl_cap", v), intLit(0)), app("Bool", ">", app("Int", "sl_arr", v), wmE))
+			g := li.accOwn[i](v)
 			r.oblige(st, "loop-step", fmt.Sprintf("%s#loop%d:%s:auto-owned:%s", name, li.ord, stepName, a.Comment), fr.safetyTags(), g, "append accumulator stays on an array allocated by this function", true, li.header.Instrs[0].Pos())
 		}
 	}
@@ -377,7 +442,7 @@ func (fr *Frame) checkLoopStep(li *loopInfo, st *State) {
 	if fr.top && r.contract != nil && r.entryEnv != nil {
 		items := r.topFrameItems(r.entryEnv, r.entryState)
 		for _, k := range li.modKeys {
-			if frameKeySkipped(k) || li.freshOnly[k] || !(strings.HasPrefix(k, "H|") || strings.HasPrefix(k, "A|") || strings.HasPrefix(k, "M")) {
+			if frameKeySkipped(k) || li.freshOnly[k] || li.autoFramed[k] || !(strings.HasPrefix(k, "H|") || strings.HasPrefix(k, "A|") || strings.HasPrefix(k, "M")) {
 				continue
 			}
 			x := r.havoc("fx", "Int")
@@ -421,4 +486,29 @@ func onlyAppendedTo(a *ssa.Alloc, li *loopInfo) bool {
 		}
 	}
 	return n > 0
+}
+
+
+// accOnlyKey: every non-fresh write to heap key k in the loop body goes to the backing array of an owned append accumulator.
+func (li *loopInfo) accOnlyKey(r *Run, k string) bool {
+	ws := li.writesSeen[k]
+	if len(ws) == 0 || len(li.ownedAcc) == 0 {
+		return false
+	}
+	for _, w := range ws {
+		if r.isFreshRefSince(w, li.probeCtr0) {
+			continue
+		}
+		ok := false
+		for _, a := range li.ownedAcc {
+			o := li.accOrigin[a]
+			if o != "" && w == o {
+				ok = true
+			}
+		}
+		if !ok {
+			return false
+		}
+	}
+	return true
 }
